@@ -20,7 +20,8 @@ RULE = (
     "top level and in functions; at run time through hy.eval of a quoted form / of hy.read text / with :macros (local-macros) / through "
     "get-macro / through a HyReader with use_current_readers; hy.R one-shot requires; hy.eval(..., module=M) from outside), public values of "
     "12 kinds (big ints, nan/inf/-0.0/complex, arbitrary unicode strings, bytes, keywords and quoted models, nested collections, f-strings, "
-    "functions with defaults, classes, comprehensions, imports, destructuring) and optionally an Engine-A program whose effects are logged. "
+    "functions with defaults, classes, comprehensions, imports, destructuring) and optionally an Engine-A program whose effects are logged; "
+    "no macro or reader-macro name is bound twice in one module. "
     "History, in a child interpreter that writes bytecode into a private PYTHONPYCACHEPREFIX: import from source -> forget (all modules of "
     "the case | only the main module | start a second interpreter) -> import again. Oracle: the source import works and gives what the "
     "macros' definitions say; it wrote a .pyc whose header matches the source's mtime and size; the second import compiled no source "
@@ -196,7 +197,7 @@ def item_tag(case, key):
             return it["style"]
         if it["style"].startswith("hyR"):
             return it["style"]
-        return it["style"] + ":" + origins(case).get(it["call"], "?")
+        return "require:" + origins(case).get(it["call"], "?")  # the use style (rt, rtread, top ...) is in the detail, not in the bucket
     return it["t"]
 
 
@@ -260,7 +261,7 @@ def judge_import(case, rendered, res):
                 return fail("source-import-differs-from-definition:" + item_tag(case, key), name=key, expected=want, got=got)
         for (psrc, want), got in zip(case.get("ext_probes", []), ms["ext_probes"]):
             if got != ["ok", want]:
-                return fail("source-import-differs-from-definition:outside-eval:" + origins(case).get(psrc[1:].split(" ")[0], "?"), probe=psrc, expected=want, got=got)
+                return fail("source-import-differs-from-definition:require:" + origins(case).get(psrc[1:].split(" ")[0], "?"), probe=psrc, expected=want, got=got)
     # 2. the .pyc written by the source import
     for name, pi in sorted(F["pyc"].items()):
         if pi["source"] not in F["compiled"]:
@@ -303,7 +304,7 @@ def judge_import(case, rendered, res):
             elif field == "ext_probes":
                 k = int(where.strip("/").split("/")[0]) if where.strip("/").split("/")[0].isdigit() else 0
                 call = case["ext_probes"][k][0][1:].split(" ")[0] if k < len(case.get("ext_probes", [])) else "?"
-                bucket = "run-time-use-differs:outside-eval:" + origins(case).get(call, "?")
+                bucket = "run-time-use-differs:require:" + origins(case).get(call, "?")
             elif field == "macros":
                 bucket = "macro-table-differs" + (":main" if name == main else ":macro-module")
             elif field == "readers":
@@ -426,6 +427,10 @@ def without_mod(case, mi):
 def candidates(best):
     cands = []
     items = best["main"]["items"]
+    for mi in reversed(range(len(best["mods"]))):
+        c = without_mod(best, mi)
+        if c is not None:
+            cands.append(c)
     for i in reversed(range(len(items))):
         c = copy.deepcopy(best)
         del c["main"]["items"][i]
@@ -439,10 +444,6 @@ def candidates(best):
         c = copy.deepcopy(best)
         c["ext_probes"] = []
         cands.append(c)
-    for mi in reversed(range(len(best["mods"]))):
-        c = without_mod(best, mi)
-        if c is not None:
-            cands.append(c)
     for mi, m in enumerate(best["mods"]):
         for field in ("reqs", "readers"):
             if m[field]:
@@ -480,7 +481,7 @@ def shrink(case, same, budget):
     if first is None:
         return case
     bucket = first[0]
-    limit = 18 if budget <= 150 else 60
+    limit = 30 if budget <= 150 else 90
     t_end = time.time() + (90 if budget <= 150 else 300)
     used = 0
     best = case
@@ -576,7 +577,10 @@ def shard(ctx):
         prog = None
         if draw(st.integers(0, 3)) == 0:
             p = draw(PG.program(budget=25, depth=3))
-            prog = P.wrap_source(p, draw(st.sampled_from(["module", "function"])))
+            mode = draw(st.sampled_from(["module", "function", "function"]))
+            prog = P.wrap_source(p, mode)
+            if mode == "function":  # keep the module importable when the program raises, so that its probes still run
+                prog = prog.replace("(setv RESULT (MAIN))", "(setv RESULT (try (MAIN) (except [e BaseException] [\"raised\" (. (type e) __name__)])))")
         return G.gen_import_case(draw, with_prog=prog)
 
     @st.composite
